@@ -256,5 +256,161 @@ theorem CInv.csCore_ccw {s : St} (hc : CInv s) (e0 : Nat) (p0 : Unit) (b_0 : e0 
     intro hfx
     grind (splits := 40)
 
+set_option maxHeartbeats 4000000 in
+/-- `create_single_face_between_edge_and_next` keeps the anchor of every inner face on the face -/
+theorem LInv.csCore_ft {s : St} (hs : LInv s) (hft3 : s.FaceTriples) (e0 : Nat) (p0 : Unit) (b_0 : e0 < s.nE)
+    (hfc : s.fc e0 = 0) (h2 : s.nxt (s.nxt e0) ≠ e0) (h3 : s.org e0 ≠ s.org (s.rv (s.nxt e0))) :
+    (St.csCore s e0 (s.nxt e0) (s.prv e0) (s.nxt (s.nxt e0)) (s.org e0) (s.org (s.rv (s.nxt e0))) p0).FaceTriples := by
+  have ev0 := hs.even
+  have E0 := hs.edge e0 b_0
+  have b_1 : s.nxt e0 < s.nE := E0.2.1
+  have b_2 : s.prv e0 < s.nE := E0.2.2.1
+  have E1 := hs.edge _ b_1
+  have b_3 : s.nxt (s.nxt e0) < s.nE := E1.2.1
+  have E2 := hs.edge _ b_2
+  have E3 := hs.edge _ b_3
+  have a4 : s.nxt (s.prv e0) = e0 := E0.2.2.2.2.2.2.1
+  have a5 : s.prv (s.nxt e0) = e0 := E0.2.2.2.2.2.1
+  have a6 : s.prv (s.nxt (s.nxt e0)) = s.nxt e0 := E1.2.2.2.2.2.1
+  have f1 : s.fc (s.nxt e0) = 0 := by rw [E0.2.2.2.2.2.2.2.1]; exact hfc
+  have f2 : s.fc (s.prv e0) = 0 := by
+    have := E2.2.2.2.2.2.2.2.1; rw [a4, hfc] at this; exact this.symm
+  have f3 : s.fc (s.nxt (s.nxt e0)) = 0 := by rw [E1.2.2.2.2.2.2.2.1]; exact f1
+  have l0 := hs.rv_lt b_0
+  have l1 := hs.rv_lt b_1
+  have l2 := hs.rv_lt b_2
+  have l3 := hs.rv_lt b_3
+  have r0 := hs.rv_rv b_0
+  have r1 := hs.rv_rv b_1
+  have r2 := hs.rv_rv b_2
+  have r3 := hs.rv_rv b_3
+  generalize hen : s.nxt e0 = en at *
+  generalize hep : s.prv e0 = ep at *
+  generalize hnn : s.nxt en = nn at *
+  have d_0_1 : e0 ≠ en := by unfold EdgeOK dst at *; grind
+  have d_0_2 : e0 ≠ ep := by unfold EdgeOK dst at *; grind
+  have d_0_3 : e0 ≠ nn := Ne.symm h2
+  have d_1_2 : en ≠ ep := by unfold EdgeOK dst at *; grind
+  have d_1_3 : en ≠ nn := by unfold EdgeOK dst at *; grind
+  have n_0 : ∀ k, s.nE + k ≠ e0 := by intro k; omega
+  have m_0 : s.nE ≠ e0 := by omega
+  have u_0 : ∀ k, e0 < s.nE + k := by intro k; omega
+  have n_1 : ∀ k, s.nE + k ≠ en := by intro k; omega
+  have m_1 : s.nE ≠ en := by omega
+  have u_1 : ∀ k, en < s.nE + k := by intro k; omega
+  have n_2 : ∀ k, s.nE + k ≠ ep := by intro k; omega
+  have m_2 : s.nE ≠ ep := by omega
+  have u_2 : ∀ k, ep < s.nE + k := by intro k; omega
+  have n_3 : ∀ k, s.nE + k ≠ nn := by intro k; omega
+  have m_3 : s.nE ≠ nn := by omega
+  have u_3 : ∀ k, nn < s.nE + k := by intro k; omega
+  have szE : (s.csCore e0 en ep nn (s.org e0) (s.org (s.rv en)) p0).nE = s.nE + 2 := by unfold St.csCore; evw [b_0, b_1, b_2, b_3, d_0_1, d_0_1.symm, d_0_2, d_0_2.symm, d_0_3, d_0_3.symm, d_1_2, d_1_2.symm, d_1_3, d_1_3.symm, n_0, (n_0 _).symm, m_0, m_0.symm, u_0, n_1, (n_1 _).symm, m_1, m_1.symm, u_1, n_2, (n_2 _).symm, m_2, m_2.symm, u_2, n_3, (n_3 _).symm, m_3, m_3.symm, u_3]
+  have szF : (s.csCore e0 en ep nn (s.org e0) (s.org (s.rv en)) p0).nF = s.nF + 1 := by unfold St.csCore; evw [b_0, b_1, b_2, b_3, d_0_1, d_0_1.symm, d_0_2, d_0_2.symm, d_0_3, d_0_3.symm, d_1_2, d_1_2.symm, d_1_3, d_1_3.symm, n_0, (n_0 _).symm, m_0, m_0.symm, u_0, n_1, (n_1 _).symm, m_1, m_1.symm, u_1, n_2, (n_2 _).symm, m_2, m_2.symm, u_2, n_3, (n_3 _).symm, m_3, m_3.symm, u_3]
+  apply hs.faceTriples_of_local hft3 [e0, en, ep, nn] [ep, en] [e0, nn] [e0, en] []
+  · omega
+  · intro x hx
+    simp only [List.mem_cons, List.not_mem_nil, or_false] at hx ⊢
+    rcases hx with h | h <;> subst h <;> simp
+  · intro x hx
+    simp only [List.mem_cons, List.not_mem_nil, or_false] at hx ⊢
+    rcases hx with h | h <;> subst h <;> simp
+  · intro x hx
+    simp only [List.mem_cons, List.not_mem_nil, or_false] at hx ⊢
+    rcases hx with h | h <;> subst h <;> simp
+  · intro i hi hT
+    simp only [List.mem_cons, List.not_mem_nil, or_false, not_or] at hT
+    have hin : ∀ k, i ≠ s.nE + k := by intro k; omega
+    have hik : ∀ k, i < s.nE + k := by intro k; omega
+    have hi0 : i ≠ s.nE := by omega
+    unfold St.csCore
+    evw [b_0, b_1, b_2, b_3, d_0_1, d_0_1.symm, d_0_2, d_0_2.symm, d_0_3, d_0_3.symm, d_1_2, d_1_2.symm, d_1_3, d_1_3.symm, n_0, (n_0 _).symm, m_0, m_0.symm, u_0, n_1, (n_1 _).symm, m_1, m_1.symm, u_1, n_2, (n_2 _).symm, m_2, m_2.symm, u_2, n_3, (n_3 _).symm, m_3, m_3.symm, u_3, hT, hin, hik, hi0, hi]
+  · intro i hi hT
+    simp only [List.mem_cons, List.not_mem_nil, or_false, not_or] at hT
+    have hin : ∀ k, i ≠ s.nE + k := by intro k; omega
+    have hik : ∀ k, i < s.nE + k := by intro k; omega
+    have hi0 : i ≠ s.nE := by omega
+    unfold St.csCore
+    evw [b_0, b_1, b_2, b_3, d_0_1, d_0_1.symm, d_0_2, d_0_2.symm, d_0_3, d_0_3.symm, d_1_2, d_1_2.symm, d_1_3, d_1_3.symm, n_0, (n_0 _).symm, m_0, m_0.symm, u_0, n_1, (n_1 _).symm, m_1, m_1.symm, u_1, n_2, (n_2 _).symm, m_2, m_2.symm, u_2, n_3, (n_3 _).symm, m_3, m_3.symm, u_3, hT, hin, hik, hi0, hi]
+  · intro i hi hT
+    simp only [List.mem_cons, List.not_mem_nil, or_false, not_or] at hT
+    have hin : ∀ k, i ≠ s.nE + k := by intro k; omega
+    have hik : ∀ k, i < s.nE + k := by intro k; omega
+    have hi0 : i ≠ s.nE := by omega
+    unfold St.csCore
+    evw [b_0, b_1, b_2, b_3, d_0_1, d_0_1.symm, d_0_2, d_0_2.symm, d_0_3, d_0_3.symm, d_1_2, d_1_2.symm, d_1_3, d_1_3.symm, n_0, (n_0 _).symm, m_0, m_0.symm, u_0, n_1, (n_1 _).symm, m_1, m_1.symm, u_1, n_2, (n_2 _).symm, m_2, m_2.symm, u_2, n_3, (n_3 _).symm, m_3, m_3.symm, u_3, hT, hin, hik, hi0, hi]
+  · intro f h0 hf hF
+    simp only [List.mem_cons, List.not_mem_nil, or_false, not_or] at hF
+    have hfn : ∀ k, f ≠ s.nF + k := by intro k; omega
+    have hf0 : f ≠ s.nF := by omega
+    have hfz : f ≠ 0 := by omega
+    unfold St.csCore; evw [b_0, b_1, b_2, b_3, d_0_1, d_0_1.symm, d_0_2, d_0_2.symm, d_0_3, d_0_3.symm, d_1_2, d_1_2.symm, d_1_3, d_1_3.symm, n_0, (n_0 _).symm, m_0, m_0.symm, u_0, n_1, (n_1 _).symm, m_1, m_1.symm, u_1, n_2, (n_2 _).symm, m_2, m_2.symm, u_2, n_3, (n_3 _).symm, m_3, m_3.symm, u_3, hfn, hf0, hfz, hF] <;> grind
+  · intro g hg hfg hmem
+    exact absurd hmem (by simp)
+  · intro x hx hc hfx
+    have hx' : x = e0 ∨ x = en ∨ x = ep ∨ x = nn ∨ x = s.nE ∨ x = s.nE + 1 := by
+      rcases hc with h | h
+      · simp only [List.mem_cons, List.not_mem_nil, or_false] at h <;> omega
+      · omega
+    unfold St.csCore at hfx ⊢
+    unfold EdgeOK dst at *
+    have hq' : (nn = ep) = (ep = nn) := propext eq_comm
+    by_cases hq : ep = nn <;>
+    rcases hx' with h | h | h | h | h | h <;> subst h
+    all_goals (revert hfx; evw [b_0, b_1, b_2, b_3, d_0_1, d_0_1.symm, d_0_2, d_0_2.symm, d_0_3, d_0_3.symm, d_1_2, d_1_2.symm, d_1_3, d_1_3.symm, n_0, (n_0 _).symm, m_0, m_0.symm, u_0, n_1, (n_1 _).symm, m_1, m_1.symm, u_1, n_2, (n_2 _).symm, m_2, m_2.symm, u_2, n_3, (n_3 _).symm, m_3, m_3.symm, u_3, hen, hep, hnn, a4, a5, a6, hfc, f1, f2, f3, hq', hq]; intro hfx; grind (splits := 40))
+
+set_option maxHeartbeats 4000000 in
+theorem LInv.csCore_vb {s : St} (hs : LInv s) (hvb : s.VBound) (e0 : Nat) (p0 : Unit) (b_0 : e0 < s.nE)
+    (hfc : s.fc e0 = 0) (h2 : s.nxt (s.nxt e0) ≠ e0) (h3 : s.org e0 ≠ s.org (s.rv (s.nxt e0))) :
+    (St.csCore s e0 (s.nxt e0) (s.prv e0) (s.nxt (s.nxt e0)) (s.org e0) (s.org (s.rv (s.nxt e0))) p0).VBound := by
+  have ev0 := hs.even
+  have E0 := hs.edge e0 b_0
+  have b_1 : s.nxt e0 < s.nE := E0.2.1
+  have b_2 : s.prv e0 < s.nE := E0.2.2.1
+  have E1 := hs.edge _ b_1
+  have b_3 : s.nxt (s.nxt e0) < s.nE := E1.2.1
+  have E2 := hs.edge _ b_2
+  have E3 := hs.edge _ b_3
+  have a4 : s.nxt (s.prv e0) = e0 := E0.2.2.2.2.2.2.1
+  have a5 : s.prv (s.nxt e0) = e0 := E0.2.2.2.2.2.1
+  have a6 : s.prv (s.nxt (s.nxt e0)) = s.nxt e0 := E1.2.2.2.2.2.1
+  have f1 : s.fc (s.nxt e0) = 0 := by rw [E0.2.2.2.2.2.2.2.1]; exact hfc
+  have f2 : s.fc (s.prv e0) = 0 := by
+    have := E2.2.2.2.2.2.2.2.1; rw [a4, hfc] at this; exact this.symm
+  have f3 : s.fc (s.nxt (s.nxt e0)) = 0 := by rw [E1.2.2.2.2.2.2.2.1]; exact f1
+  have l0 := hs.rv_lt b_0
+  have l1 := hs.rv_lt b_1
+  have l2 := hs.rv_lt b_2
+  have l3 := hs.rv_lt b_3
+  have r0 := hs.rv_rv b_0
+  have r1 := hs.rv_rv b_1
+  have r2 := hs.rv_rv b_2
+  have r3 := hs.rv_rv b_3
+  generalize hen : s.nxt e0 = en at *
+  generalize hep : s.prv e0 = ep at *
+  generalize hnn : s.nxt en = nn at *
+  have d_0_1 : e0 ≠ en := by unfold EdgeOK dst at *; grind
+  have d_0_2 : e0 ≠ ep := by unfold EdgeOK dst at *; grind
+  have d_0_3 : e0 ≠ nn := Ne.symm h2
+  have d_1_2 : en ≠ ep := by unfold EdgeOK dst at *; grind
+  have d_1_3 : en ≠ nn := by unfold EdgeOK dst at *; grind
+  have n_0 : ∀ k, s.nE + k ≠ e0 := by intro k; omega
+  have m_0 : s.nE ≠ e0 := by omega
+  have u_0 : ∀ k, e0 < s.nE + k := by intro k; omega
+  have n_1 : ∀ k, s.nE + k ≠ en := by intro k; omega
+  have m_1 : s.nE ≠ en := by omega
+  have u_1 : ∀ k, en < s.nE + k := by intro k; omega
+  have n_2 : ∀ k, s.nE + k ≠ ep := by intro k; omega
+  have m_2 : s.nE ≠ ep := by omega
+  have u_2 : ∀ k, ep < s.nE + k := by intro k; omega
+  have n_3 : ∀ k, s.nE + k ≠ nn := by intro k; omega
+  have m_3 : s.nE ≠ nn := by omega
+  have u_3 : ∀ k, nn < s.nE + k := by intro k; omega
+  have szE : (s.csCore e0 en ep nn (s.org e0) (s.org (s.rv en)) p0).nE = s.nE + 2 := by unfold St.csCore; evw [b_0, b_1, b_2, b_3, d_0_1, d_0_1.symm, d_0_2, d_0_2.symm, d_0_3, d_0_3.symm, d_1_2, d_1_2.symm, d_1_3, d_1_3.symm, n_0, (n_0 _).symm, m_0, m_0.symm, u_0, n_1, (n_1 _).symm, m_1, m_1.symm, u_1, n_2, (n_2 _).symm, m_2, m_2.symm, u_2, n_3, (n_3 _).symm, m_3, m_3.symm, u_3]
+  unfold St.csCore at szE ⊢
+  refine vbound_run s _ hvb (s.nE + 2) szE (by omega) ?_
+  intro i hi
+  simp only [List.mem_cons, List.not_mem_nil, or_false] at hi
+  rcases hi with rfl | rfl | rfl | rfl | rfl | rfl | rfl | rfl | rfl <;> simp only [Instr.argOK] <;> omega
+
 end St
 end Spade
